@@ -41,9 +41,17 @@ int ogg_stream_packetpeek(ogg_stream_state *os,ogg_packet *op){ if(g_queued<0)re
 int ogg_stream_packetout(ogg_stream_state *os,ogg_packet *op){ int r=ogg_stream_packetpeek(os,op); g_queued=-1; return r; }
 int vorbis_synthesis_restart(vorbis_dsp_state *v){ g_restarts++; return 0; }
 #include "vorbisfile.c"
-static int _seek_helper(OggVorbis_File *vf,ogg_int64_t off){ CHECK(off>=0&&off<=vf->end,"seek target inside the file"); vf->offset=off; return 0; }
+static int g_fault=0;   /* ghost: an I/O fault was injected (-DFAULTS) */
+static int _seek_helper(OggVorbis_File *vf,ogg_int64_t off){ CHECK(off>=0&&off<=vf->end,"seek target inside the file");
+#ifdef FAULTS
+  if(ND_BOOL()){ g_fault=1; return OV_EREAD; }
+#endif
+  vf->offset=off; return 0; }
 static ogg_int64_t _get_next_page(OggVorbis_File *vf,ogg_page *og,ogg_int64_t boundary){
   ASSUME(fetches>0); fetches--;
+#ifdef FAULTS
+  if(ND_BOOL()){ g_fault=1; return OV_EREAD; }
+#endif
   if(boundary>0)boundary+=vf->offset;
   int i; for(i=0;i<NP;i++) if(pg_off[i]>=vf->offset) break;
   if(i==NP) return OV_EOF;
@@ -78,6 +86,11 @@ void harness(void){
   int r=ov_pcm_seek_page(&vf,pos);
   /* the link search picks the LAST link containing pos: pos==end of link 0 belongs to link 1 */
   int in_target = (tl==1) || (rel<pcml[1]);
+  if(g_fault){
+    /* C12: a read/seek fault during the search surfaces as a negative code and leaves the handle in the known "dumped" state */
+    if(r!=0){ CHECK(r<0 && (r==OV_EREAD||r==OV_EBADLINK||r==OV_EFAULT||r==OV_EOF||r==OV_FALSE),"a failed page seek returns a negative code");
+      CHECK(vf.pcm_offset==-1 && vf.ready_state==OPENED && env_dsp_live==0,"failed page seek: decode machine dumped, position unknown"); WITNESS_AT("page seek failed on an injected fault"); }
+    return; }
   if(in_target){
     CHECK(r==0,"an in-range page seek on an intact link succeeds");
     if(r==0){
